@@ -32,7 +32,8 @@ def plan(tier, seed):
 
 def minimums(tier):
     return {"plid.queries": 3000, "plid.short_id_queries": 500, "bmcid.queries": 1000, "id.queries": 1000, "src.queries": 2000,
-            "srcexclude.queries": 300, "found.hidden_or_nonserviceable": 1000, "notfound.queries": 300}
+            "srcexclude.queries": 300, "found.hidden_or_nonserviceable": 1000, "notfound.queries": 300,
+            "bmcid.zero_queries": 40}
 
 
 def forms(rng, v):
@@ -43,6 +44,11 @@ def forms(rng, v):
 def build(rng, u, reg, root, i):
     while True:
         ents = dirs.gen_dir_model(rng, u, rng.randrange(3, 14), reg=reg, bmc_style=True, with_ps=0.8)
+        # boundary BMC ids (0 is a valid id: PELs that never got a BMC log id) on a few PELs
+        if rng.random() < 0.5:
+            ents[0].pel.ph["bmcid"] = 0
+        if rng.random() < 0.3 and len(ents) > 1:
+            ents[1].pel.ph["bmcid"] = 0xFFFFFFFF
         # boundary / shared PLIDs
         used = set()
         for e in ents:
@@ -56,6 +62,8 @@ def build(rng, u, reg, root, i):
         refs = [e.pel.primary_src().m["refcode"] for e in ents if e.pel.primary_src()]
         if any(a != b and a in b for a in refs for b in refs) or len(set(refs)) != len(refs):
             continue
+        if len({e.pel.bmcid for e in ents}) != len(ents):
+            continue                      # BMC ids stay unique within a directory (first-match order is unspecified)
         names_ok = all(sum(("%08X" % e.pel.eid) in x.name for x in ents) == 1 for e in ents)
         if names_ok:
             break
@@ -134,6 +142,8 @@ def run(spec, ctx):
             while e is None and any(x.pel.bmcid == n for x in ents):
                 n = rng.randrange(1 << 32)
             ctx.count("bmcid.queries")
+            if n == 0:
+                ctx.count("bmcid.zero_queries")
             ctx.case("bmc%d|%r" % (n, desc), True)
             rc, out = cli(["--bmc-id", str(n)], "bmc-id")
             if out is None:
